@@ -418,6 +418,89 @@ defop(
     w=0,
 )
 
+
+# ---- seeded random arrays (C07 / C23): the mirror is the array's own first realization ----------
+
+RANDOM_GENS = ["default_rng", "default_rng", "RandomState", "MT19937", "Philox"]
+RANDOM_DISTS = {
+    # name: (needs Generator?, arg generator)
+    "normal": lambda r: [r.choice([0, -2, 3.5]), r.choice([1, 0.5, 2])],
+    "uniform": lambda r: [r.choice([0, -1]), r.choice([1, 4])],
+    "standard_normal": lambda r: [],
+    "poisson": lambda r: [r.choice([1.5, 4, 20])],
+    "binomial": lambda r: [r.choice([5, 12]), r.choice([0.25, 0.5])],
+    "exponential": lambda r: [r.choice([1.0, 2.5])],
+    "integers": lambda r: [r.choice([0, -5]), r.choice([7, 100])],
+    "random": lambda r: [],
+    "gamma": lambda r: [r.choice([1.0, 2.0]), r.choice([1.0, 0.5])],
+}
+
+
+def _g_random(g, ins):
+    rng = g.rng
+    shape = rand_shape(rng, min(g.max_ndim, 3), g.max_extent, allow_zero=False, min_ndim=1, max_size=g.max_size)
+    dist = rng.choice(list(RANDOM_DISTS))
+    gen = rng.choice(RANDOM_GENS)
+    args = RANDOM_DISTS[dist](rng)
+    arr_param = None
+    if dist in ("normal", "uniform", "poisson") and rng.random() < 0.35:
+        # array-valued first parameter, broadcast along the last axis; as NumPy or as a dask array
+        arr_param = {"kind": rng.choice(["numpy", "dask"]), "n": shape[-1], "chunks": list(rand_composition(rng, shape[-1]))}
+    before = []
+    for _ in range(rng.choice([0, 0, 1, 2])):
+        before.append({"dist": rng.choice(["normal", "uniform", "standard_normal"]), "shape": [rng.randint(1, 5)], "chunks": None})
+    return {"gen": gen, "seed": rng.randrange(10**6), "dist": dist, "args": args, "shape": list(shape), "chunks": [list(c) for c in rand_chunks(rng, shape)], "arr_param": arr_param, "before": before}
+
+
+def _rand_generator(p):
+    import numpy as _np
+
+    R = da().random
+    if p["gen"] == "default_rng":
+        return R.default_rng(p["seed"])
+    if p["gen"] == "RandomState":
+        return R.RandomState(p["seed"])
+    bitgen = getattr(_np.random, p["gen"])(p["seed"])
+    return R.default_rng(bitgen)
+
+
+def _rand_draw(gen, dist, args, shape, chunks, is_rs):
+    name = dist
+    if is_rs:
+        name = {"integers": "randint", "random": "random_sample"}.get(dist, dist)
+    fn = getattr(gen, name)
+    kw = {"size": tuple(shape)}
+    if chunks is not None:
+        kw["chunks"] = tuple(tuple(c) for c in chunks)
+    return fn(*args, **kw)
+
+
+def _rand_da(p):
+    gen = _rand_generator(p)
+    is_rs = p["gen"] == "RandomState"
+    for b in p.get("before", []):
+        _rand_draw(gen, b["dist"], RANDOM_DISTS[b["dist"]](__import__("random").Random(0)), b["shape"], b["chunks"], is_rs)
+    args = list(p["args"])
+    ap = p.get("arr_param")
+    if ap:
+        base = np.arange(ap["n"], dtype="f8") * 0.5 + (1.0 if p["dist"] == "poisson" else 0.0)
+        if p["dist"] == "uniform":
+            base = base - ap["n"]  # low < high
+        args[0] = base if ap["kind"] == "numpy" else da().from_array(base, chunks=(tuple(ap["chunks"]),))
+    return _rand_draw(gen, p["dist"], args, p["shape"], p["chunks"], is_rs)
+
+
+def _rand_np(p):
+    # NumPy cannot predict a dask random stream: the mirror is the array's own realization, taken from an
+    # independent build of the same spec (so "rebuilding with the same seed gives the same values" is part of what is checked)
+    import dask
+
+    with dask.config.set(scheduler="sync"):
+        return np.asarray(_rand_da(p).compute())
+
+
+defop("random", 0, _g_random, _rand_np, _rand_da, "leaf random", w=0)
+
 LEAF_OPS = ["from_array"] * 8 + ["arange", "fill", "linspace", "eye"]
 
 # ---- elementwise -----------------------------------------------------------
